@@ -571,12 +571,7 @@ func CopyArgs(m map[string]interface{}) map[string]interface{} {
 func joinInterfaceSlice(a []interface{}) string {
 	other := make([]string, len(a))
 	for i := range a {
-		switch v := a[i].(type) {
-		case string:
-			other[i] = fmt.Sprintf("%q", v)
-		default:
-			other[i] = fmt.Sprintf("%v", v)
-		}
+		other[i] = formatValue(a[i])
 	}
 	return "[" + strings.Join(other, ",") + "]"
 }
